@@ -101,7 +101,7 @@ static void alloc_valid(entry_t *e, rng_t *r)
                 bufs[i] = copies[i] = NULL;
                 if (e->a[i].kind == 'S') continue;
                 bufs[i] = aligned_alloc(64, (e->a[i].size + 127) & ~(size_t) 63);
-                rng_fill(r, bufs[i], e->a[i].size);
+                rng_fill(r, bufs[i], (e->a[i].size + 127) & ~(size_t) 63);        /* the slack behind the object too: what a call reads past an argument must not be a constant */
         }
         if (e->prep) e->prep(e, bufs);
         for (int i = 0; i < e->nargs; i++) if (bufs[i]) { copies[i] = malloc(e->a[i].size); memcpy(copies[i], bufs[i], e->a[i].size); }
